@@ -194,5 +194,14 @@ def loop(rng, n_cons=None, pump=None, modes=None, bidirectional_ok=True):
     else:
         b.add("create_circ_pump_const_pressure", "circ_pump_pressure", return_junction=ret[0], flow_junction=sup[0],
               p_flow_bar=p0, plift_bar=rng.choice([1.0, 2.0]), t_flow_k=tf)
+    if rng.random() < 0.35:
+        # stand-by elements that are not calculated: an out-of-service second pump and an out-of-service consumer
+        if rng.random() < 0.7:
+            b.add("create_circ_pump_const_pressure", "circ_pump_pressure", return_junction=ret[0], flow_junction=sup[0],
+                  p_flow_bar=p0, plift_bar=1.5, t_flow_k=tf - 7., in_service=False)
+        if rng.random() < 0.7:
+            b.add("create_heat_consumer", "heat_consumer", from_junction=sup[k], to_junction=ret[k],
+                  controlled_mdot_kg_per_s=0.4, qext_w=15000., in_service=False)
+        rungs.append("standby")
     return b.spec(kind="loop", heat_sources=True, rungs=rungs, pump=pump,
                   has_q_modes=any(r.startswith("QE") for r in rungs))
